@@ -14,6 +14,9 @@ TARGETS = [
     "contracts.coordinates_c13:lemma_scatter_points_reproducible",
     "verde.projections:project_region",
     "verde.utils:maxabs",
+    # "every node produced by grid_coordinates lies inside the requested region": clause nodes_lie_within_start_and_stop
+    M + ":line_coordinates",
+    M + ":grid_coordinates",
 ]
 MIN_OBLIGATIONS = {"quick": 60, "thorough": 60}
 EXPLANATION = (
